@@ -31,7 +31,7 @@ RULE = ('cases = histories: (target operator, nrows, buffersize, cache, source f
 ASSUMPTIONS = ['reference counting plus gc.collect() reaches quiescence', 'the harness drops exception objects and tracebacks before the quiescence check']
 TARGETS = ['sort', 'join', 'complement', 'distinct', 'aggregate', 'pivot', 'mergesort', 'fromdicts']
 REQUIRED = (['target:' + t for t in TARGETS] + ['files-created', 'files-removed', 'iterator-outlived-view', 'abandoned-mid-iteration',
-            'source-failed-midway', 'pass-from-file-cache', 'cache-cleared-under-live-iterator', 'three-iterators', 'view-released-first', 'cache-off', 'quiescent-points-checked'])
+            'source-failed-midway', 'complete-pass-after-a-failed-pass', 'pass-from-file-cache', 'cache-cleared-under-live-iterator', 'three-iterators', 'view-released-first', 'cache-off', 'quiescent-points-checked'])
 EXHAUSTIVE = {'quick': True, 'thorough': True}
 
 _audit = None
@@ -135,6 +135,14 @@ def cases(ctx):
                                        'steps': _histories(2, ks, family, 'iters-first')}
                                 yield {'target': 'sort', 'n': n, 'buffersize': bs, 'cache': cache, 'fail': fail, 'failpass': failpass,
                                        'steps': _histories(2, ks, family, 'view-first')}
+    # a transient source failure in the second or a later chunk, then more passes over the same (cached) view
+    for n in range(2, maxn + 3):
+        for bs in range(1, n):
+            for fail in range(bs + 1, n + 2):
+                for cache in (True, False):
+                    for k0 in (1, 2, n + 2):
+                        steps = [['iter', 0], ['next', 0, k0], ['iter', 1], ['next', 1, 'all'], ['iter', 2], ['next', 2, 'all'], ['next', 0, 'all']]
+                        yield {'target': 'sort', 'n': n, 'buffersize': bs, 'cache': cache, 'fail': fail, 'failpass': 1, 'steps': steps}
     # sort-backed families with buffersize 1
     for tgt in ('join', 'complement', 'distinct', 'aggregate', 'pivot', 'mergesort'):
         for n in (0, 1, 3):
@@ -272,8 +280,14 @@ def judge(case, ctx):
                     r = next(its[i])
                 except StopIteration:
                     dead.add(i)
-                    if fail is None and [tuple(x) for x in got[i]] != solo:
-                        out.append({'kind': 'iterator-ended-with-wrong-rows', 'iterator': i, 'expected': solo, 'observed': got[i]})
+                    # an iterator that ends normally has delivered the whole table, also when some *other* pass hit a source
+                    # failure (a partially filled cache must never be replayed as if it were complete).  fromdicts on a
+                    # generator that raised is exempt: the one-shot generator is dead afterwards by construction.
+                    if (fail is None or tgt != 'fromdicts') and [tuple(x) for x in got[i]] != solo:
+                        out.append({'kind': 'iterator-ended-with-wrong-rows', 'iterator': i, 'expected': solo, 'observed': got[i],
+                                    'after-a-source-failure': failed})
+                    elif failed:
+                        ctx.seen('complete-pass-after-a-failed-pass')
                     break
                 except InjectedFault:
                     # the injected source failure: expected, this iterator is finished
@@ -294,7 +308,7 @@ def judge(case, ctx):
                     dead.add(i)
                     out.append({'kind': 'iterator-runs-past-the-end', 'iterator': i, 'observed': got[i]})
                     break
-            if fail is None and not any(o['kind'].startswith('iterator') or o['kind'].startswith('live') for o in out):
+            if (fail is None or tgt != 'fromdicts') and not any(o['kind'].startswith('iterator') or o['kind'].startswith('live') for o in out):
                 if [tuple(x) for x in got[i]] != solo[:len(got[i])]:
                     out.append({'kind': 'iterator-delivered-wrong-rows', 'iterator': i, 'expected-prefix-of': solo, 'observed': got[i],
                                 'view-released': view is None})
